@@ -195,6 +195,9 @@ def gen_ev(rng, tier):
         n = len(case["nodes"])
         child = max(range(n), key=lambda v: sum(1 for _, w in case["edges"] if w == v))
         ev = [child]
+        if rng.random() < .5:
+            # the child and every one of its parents observed (at independently drawn states)
+            ev = [child] + sorted({u for u, w in case["edges"] if w == child})
     case["ev"] = [[v, rng.randrange(case["card"][v])] for v in ev]
     case["kind"] = rng.choice(["rejection", "lw", "lw"])
     case["size"] = rng.choice([1, 5, 2000])
@@ -445,6 +448,59 @@ def run_sim(case, drv):
     return ok(nontrivial=bool(case["edges"]), **tags)
 
 
+# ----------------------------------------------------------------------------- forward sampling around supplied partial samples
+def gen_partial(rng, tier):
+    case = gen.rand_bn(rng, nmin=2, nmax=4, maxcard=3, name_kind=rng.choice(["str", "word"]), label_kind="int", mincard=2)
+    n = len(case["nodes"])
+    case["pv"] = rng.randrange(n)
+    case["size"] = rng.choice([4, 12, 40])
+    case["pvals"] = [rng.randrange(case["card"][case["pv"]]) for _ in range(case["size"])]
+    case["index"] = rng.choice(["range", "perm", "filtered", "labels"])
+    case["perm"] = rng.sample(range(case["size"]), case["size"])
+    case["seed"] = rng.choice([0, rng.randrange(10 ** 6), rng.randrange(10 ** 6)])
+    case["via"] = rng.choice(["forward", "forward", "simulate"])
+    return case
+
+
+def run_partial(case, drv):
+    import pandas as pd
+    from pgmpy.sampling import BayesianModelSampling
+    names, card = case["nodes"], case["card"]
+    pn = [gen.lab(x) for x in names]
+    n, N, pv = len(names), case["size"], case["pv"]
+    bn = gen.bn_to_pgmpy(case)
+    # the partial samples are an ordinary frame: its index is whatever the user's earlier shuffling / filtering left behind
+    idx = {"range": list(range(N)), "perm": case["perm"], "filtered": [2 * i + 1 for i in range(N)],
+           "labels": [f"r{i}" for i in case["perm"]]}[case["index"]]
+    part = pd.DataFrame({pn[pv]: list(case["pvals"])}, index=idx)
+    tags = dict(index=case["index"], via=case["via"], size=N)
+    try:
+        if case["via"] == "forward":
+            df = BayesianModelSampling(bn).forward_sample(size=N, seed=case["seed"], show_progress=False, partial_samples=part)
+        else:
+            df = bn.simulate(n_samples=N, seed=case["seed"], show_progress=False, partial_samples=part)
+    except Exception as e:
+        return fail(f"{case['via']} with partial samples ({case['index']} index) raised {type(e).__name__}: {e}", **tags)
+    if len(df) != N:
+        return fail(f"{case['via']} with partial samples returned {len(df)} rows, requested {N}", **tags)
+    rows, err = rows_to_idx(df, case, list(range(n)))
+    if err:
+        return fail(f"{case['via']} with partial samples ({case['index']} index): {err}", **tags)
+    got = [r[pv] for r in rows]
+    if got != list(case["pvals"]):
+        return fail(f"{case['via']} with partial samples ({case['index']} index): column {pn[pv]} came back as {got}, supplied "
+                    f"{case['pvals']}", **tags)
+    cp = {c["child"]: c for c in case["cpds"]}
+    for r in rows:
+        for v in range(n):
+            if v == pv:
+                continue
+            c = cp[v]
+            if Fraction(c["table"][r[v]][core.ravel([card[p] for p in c["parents"]], [r[p] for p in c["parents"]])]) == 0:
+                return fail(f"row {r}: {pn[v]} has a zero-probability state given its parents", **tags)
+    return ok(nontrivial=bool(case["edges"]), **tags)
+
+
 # ----------------------------------------------------------------------------- impossible states of roots
 def gen_zero_state(rng, tier):
     k = rng.randint(3, 7)
@@ -655,6 +711,7 @@ STREAMS = [
     Stream("evidence", gen_ev, run_ev, quick=300, thorough=3000),
     Stream("gibbs", gen_gibbs, run_gibbs, quick=300, thorough=3000),
     Stream("simulate", gen_sim, run_sim, quick=180, thorough=1800),
+    Stream("partial", gen_partial, run_partial, quick=150, thorough=1500),
     Stream("gibbs_chain", gen_gibbs_chain, run_gibbs_chain, quick=90, thorough=900),
     Stream("hashseed_repro", gen_repro, run_repro, quick=6, thorough=42),
     Stream("zero_state", gen_zero_state, run_zero_state, quick=1800, thorough=18000),
